@@ -7,7 +7,8 @@ from .. import core, lmm
 class C15(core.Prop):
     id = "C15"
     drivers = ["lmm_driver"]
-    sizes = {"quick": 3000, "thorough": 60000}
+    technique = "stateful property-based testing (Hypothesis) of LMM operation histories; capacity validity predicate evaluated on every solved system"
+    sizes = {"quick": 15000, "thorough": 400000}
     rule = ("Hypothesis-generated histories (<=60 ops) of constraint/variable creation, expand (weights 0, <1, 1, >1, repeated), "
             "bound/penalty/capacity updates, suspend (penalty 0), free and solve on systems of <=12 constraints x <=20 variables, "
             "policies SHARED/FATPIPE/NONLINEAR(callback), concurrency limits, x solver in {maxmin, fairbottleneck, bmf} x selective on/off, "
